@@ -355,6 +355,8 @@ def replay(rep):
         return not helper_inverse_failures(r['n'])
     if r.get('site') == 'estimator':
         return not estimator_failures(r['cls'], r['cplx'], r['N'], r['nfft'], r['seed'], r['path'])
+    if r.get('site') == 'stale':
+        return not stale_failures(r['cls'], r['cplx'], r['N'], r['nfft'], r['seed'], r['path'], r['what'], r['query'])
     if r.get('site') == 'arma2psd':
         return not arma_failures(r['nfft'])
     return True
@@ -374,6 +376,51 @@ def estimator_failures(clsname, cplx, N, nfft, seed, path):
     _ = p.psd
     bad, _ = check_object(cplx, nfft, None, path, obj=p)
     return [(k.replace('/sides_setter/', '/%s.sides_setter/' % clsname).replace('/get_converted_psd/', '/%s.get_converted_psd/' % clsname), w) for k, w in bad]
+
+
+def stale_failures(clsname, cplx, N, nfft, seed, path, what, query):
+    """a conversion asked of an object whose stored PSD is in a NON-default representation and has gone stale (an attribute changed
+    since it was computed, nothing read in between): the result must be the conversion of the up-to-date estimate"""
+    import spectrum
+    rng = np.random.default_rng(seed)
+    x = rng.standard_normal(N) + (1j * rng.standard_normal(N) if cplx else 0)
+
+    def make(fs, sbf):
+        if clsname == 'Periodogram':
+            return spectrum.Periodogram(x, NFFT=nfft, sampling=fs, scale_by_freq=sbf)
+        if clsname == 'pburg':
+            return spectrum.pburg(x, 3, NFFT=nfft, sampling=fs, scale_by_freq=sbf)
+        return spectrum.pcorrelogram(x, lag=4, NFFT=nfft, sampling=fs, scale_by_freq=sbf)
+    p = make(2.0, False)
+    _ = p.psd
+    for t in path[:-1]:
+        p.sides = t
+    fs, sbf = 2.0, False
+    if what == 'sampling':
+        fs = 5.0; p.sampling = fs
+    else:
+        sbf = True; p.scale_by_freq = sbf
+    t = path[-1]
+    f = make(fs, sbf); v0 = np.array(f.psd, copy=True); s0 = f.sides
+    orc = Oracle(f)
+    exp = orc.expected(s0, t, v0)
+    c = conf(cplx, nfft)
+    try:
+        if query:
+            out = np.array(p.get_converted_psd(t), copy=True)
+        else:
+            p.sides = t; out = np.array(p.psd, copy=True)
+    except Exception as e:
+        return [('raises/%s.stale/%s' % (clsname, c), 'exception %r converting a stale PSD to %s' % (e, t))]
+    site = '%s.%s_on_stale_psd' % (clsname, 'get_converted_psd' if query else 'sides_setter')
+    if len(out) != len(orc.f[t]):
+        return [('length/%s/%s' % (site, c), 'len=%d but len(frequencies(%s))=%d (stored representation %s, %s changed since it was computed)' % (
+            len(out), t, len(orc.f[t]), path[-2] if len(path) >= 2 else s0, what))]
+    sc = max(1e-300, float(np.max(np.abs(exp))))
+    if not np.all(np.abs(out - exp) <= 1e-9 * sc):
+        return [('axis/%s/%s' % (site, c), 'the conversion to %s of a stale PSD stored as %s (%s changed) is not the conversion of the up-to-date estimate (max rel dev %.3g)' % (
+            t, path[-2] if len(path) >= 2 else s0, what, float(np.max(np.abs(out - exp))) / sc))]
+    return []
 
 
 def arma_failures(nfft):
@@ -583,6 +630,21 @@ def run(ctx):
         report(bad, rep)
         ctx.count('estimator/%s/%s' % (clsname, conf(cplx, nfft)))
         ctx.case(('estimator', clsname, cplx, N, nfft, seed, tuple(path)), sample=rep)
+    for it in range(ctx.q(48, 400)):
+        clsname = ['Periodogram', 'pburg', 'pcorrelogram'][it % 3]
+        cplx = bool((it // 3) % 2); N = int(rng.integers(8, 20)); nfft = int(rng.integers(N, N + 12))
+        seed = int(rng.integers(0, 2 ** 31))
+        pool = SIDES[1:] if cplx else SIDES
+        path = [pool[int(t)] for t in rng.integers(0, len(pool), size=int(rng.integers(2, 4)))]
+        what = ['sampling', 'scale_by_freq'][(it // 6) % 2]; query = bool((it // 12) % 2)
+        rep = {'site': 'stale', 'cls': clsname, 'cplx': cplx, 'N': N, 'nfft': nfft, 'seed': seed, 'path': path, 'what': what, 'query': query}
+        try:
+            bad = stale_failures(clsname, cplx, N, nfft, seed, path, what, query)
+        except Exception as e:
+            bad = [('raises/%s.stale/%s' % (clsname, conf(cplx, nfft)), 'exception %r' % e)]
+        report(bad, rep)
+        ctx.count('stale/%s/%s/%s' % (clsname, conf(cplx, nfft), what))
+        ctx.case(('stale', clsname, cplx, N, nfft, seed, tuple(path), what, query), sample=rep if it < 2 else None)
     for nfft in range(3, nmax + 1):
         try:
             bad = arma_failures(nfft)
